@@ -1100,7 +1100,7 @@ func (c *Ctx) judgeTarget(name string, pol targetPolicy, p *prov, ch *chain, ws 
 			return "on the directory walk the write is not guarded by the test path.Ext(name) == \"" + strings.TrimPrefix(pol.guard, "ext:") + "\""
 		}
 	case strings.HasPrefix(pol.guard, "suffix:"):
-		if !guarded(suffixPred(strings.Split(strings.TrimPrefix(pol.guard, "suffix:"), "|"))) {
+		if !guarded(suffixOrExtPred(strings.Split(strings.TrimPrefix(pol.guard, "suffix:"), "|"))) {
 			return "the write is not guarded by a suffix test for " + strings.TrimPrefix(pol.guard, "suffix:")
 		}
 	case strings.HasPrefix(pol.guard, "match:"):
@@ -1281,6 +1281,29 @@ func extPred(ext string) func(cond ssa.Value, val bool) bool {
 			return false
 		}
 		return (b.Op == token.EQL && val) || (b.Op == token.NEQ && !val)
+	}
+}
+
+// suffixOrExtPred: HasSuffix(name, s) for an allowed suffix s, or Ext(name) == s when s is an extension
+// (starts with the only dot it contains): for such suffixes the two tests are the same test.
+func suffixOrExtPred(allowed []string) func(cond ssa.Value, val bool) bool {
+	sp := suffixPred(allowed)
+	var eps []func(cond ssa.Value, val bool) bool
+	for _, a := range allowed {
+		if strings.HasPrefix(a, ".") && strings.Count(a, ".") == 1 {
+			eps = append(eps, extPred(a))
+		}
+	}
+	return func(cond ssa.Value, val bool) bool {
+		if sp(cond, val) {
+			return true
+		}
+		for _, ep := range eps {
+			if ep(cond, val) {
+				return true
+			}
+		}
+		return false
 	}
 }
 
